@@ -128,7 +128,9 @@ func init() {
 		// several replicas of an on-disk state machine shard lag at once and need streamed snapshots
 		runner.Part{Scenario: "simhost", Params: p("sm", "3", "hosts", "5", "snapshot", "5", "overhead", "0", "ppartition", "12", "groupsplit", "60", "pheal", "8", "pcrash", "4", "ops", "40"), Share: 1},
 		// two shards per host sharing the engine's workers: shards stopped and started again, crashes, a busy snapshot worker
-		runner.Part{Scenario: "simhost", Params: p("ballast", "1", "snapworkers", "1", "snapshot", "5", "overhead", "0", "pstop", "10", "prestart", "80", "smyield", "400", "pcrash", "6", "ppartition", "6"), Share: 1})
+		runner.Part{Scenario: "simhost", Params: p("ballast", "1", "snapworkers", "1", "snapshot", "5", "overhead", "0", "pstop", "10", "prestart", "80", "smyield", "400", "pcrash", "6", "ppartition", "6"), Share: 1},
+		// membership changes requested of leaders that are cut off (the entry is appended, never committed, overwritten), leadership going back and forth
+		runner.Part{Scenario: "simhost", Params: p("hosts", "3", "voters", "3", "pmember", "8", "ppartition", "15", "pheal", "5", "ptransfer", "15", "checkquorum", "0", "pcrash", "0", "pstop", "0", "steps", "1500"), Share: 1})
 	sh("C18", 120, 1200, runner.Part{Scenario: "simhost", Params: p("pmember", "20", "hosts", "5"), Share: 1},
 		runner.Part{Scenario: "simhost", Params: p("pmember", "20", "hosts", "4", "pcrash", "5"), Share: 1},
 		// quorum sets: reads and elections while non-voting members / witnesses answer and voters are cut off
